@@ -1292,6 +1292,9 @@ pub fn gen_family(g: &mut Gen, family: &str, per_form: usize, forms: &std::colle
                     }
                 }
                 "fault" => {
+                    if g.rng.gen_bool(0.2) {
+                        g.next_drain = 2; // a fault when ax's record of calls has been emptied by unmatched returns (error decoration)
+                    }
                     let place = [Place::Rw, Place::Ro, Place::Hole, Place::Straddle, Place::LastFit, Place::Null, Place::Misalign][n % 7];
                     let shape = [MemShape::Base, MemShape::BaseDisp8, MemShape::BaseIndex, MemShape::Abs32][g.rng.gen_range(0..4)];
                     // alignment-checked 128-bit operands also behind FS / GS bases that are not 16-byte aligned
